@@ -2,7 +2,7 @@
 (* E03 -- parameters of an exhaustive / generator run.  checks/E03.py writes its own copy of this module for every
    run (a .cfg file cannot contain records); this one is the default for running ExportContextMC / ExportContextGen
    by hand.  Times are ticks of the model clock: timeout 3, caller deadlines 2 (earlier than the timeout) and 8. *)
-ParamReqs   == <<"r1", "r2", "r3">>
+ParamReqs   == <<"r1", "r2">>
 ParamCfgs   == {[queue |-> "memory", batch |-> TRUE, min |-> 2, max |-> 3, timeout |-> 3, retry |-> TRUE, enq |-> FALSE],
                 [queue |-> "none", batch |-> FALSE, min |-> 0, max |-> 0, timeout |-> 3, retry |-> TRUE, enq |-> FALSE]}
 ParamAttrs  == {[n |-> 1, sc |-> "span", dl |-> 0, cancel |-> "post", up |-> <<>>],
